@@ -326,8 +326,13 @@ def function_domains():
     table("MI", G.MI, dict(epsilon=1e-6), {"epsilon": [0, 1, None]}, "gemclus.gemini.MI.__init__")
     table("draw_gmm", draw_gmm, dict(n=5, loc=[[0, 0], [1, 1]], scale=[np.eye(2), np.eye(2)], pvals=[0.5, 0.5], random_state=0),
           {"n": [0, -1, 2.5, None], "loc": [3, None], "pvals": [[0.5, 0.6], [0.5], [-0.5, 1.5], [0.0, 1.0], 3], "scale": [[np.eye(2)], [np.eye(3), np.eye(3)],
-                                                                                                                         [-np.eye(2), np.eye(2)], 5],
+                                                                                                                         [-np.eye(2), np.eye(2)], 5,
+                                                                                                                         # indefinite (one negative, one positive eigenvalue), in either position
+                                                                                                                         [np.array([[1., 2.], [2., 1.]]), np.eye(2)], [np.eye(2), np.diag([3., -0.5])],
+                                                                                                                         [np.eye(2), np.array([[0.5, -2.], [-2., 0.5]])], [np.zeros((2, 2)), np.eye(2)]],
            "random_state": ["x", -1]}, "gemclus.data.draw_gmm")
+    table("draw_gmm (1-d)", draw_gmm, dict(n=5, loc=[[0.], [1.]], scale=[[1.], [4.]], pvals=[0.5, 0.5], random_state=0),
+          {"scale": [[[-1.], [1.]], [[1.], [-0.1]], [[1.]], [[1.], [1.], [1.]]], "pvals": [[0.3, 0.3], [1.0, 0.0]]}, "gemclus.data.draw_gmm")
     table("multivariate_student_t", multivariate_student_t, dict(n=5, loc=[0, 0], scale=np.eye(2), df=3, random_state=0),
           {"n": [0, 1.5], "df": [0, -1, "x"], "scale": [np.eye(3), np.ones((2, 3))], "random_state": ["x"]}, "gemclus.data.multivariate_student_t")
     table("gstm", gstm, dict(n=8, alpha=2, df=1, random_state=0), {"n": [3, 0, 2.5], "alpha": [0, -1], "df": [0, -2], "random_state": ["x"]}, "gemclus.data.gstm")
